@@ -542,7 +542,14 @@ pub fn base_scenario(
     // right-hand sides, 2^16 matrix elements): 1 = 65-80 nonlinear parameters,
     // 2 = 64-130 right-hand sides, 3 = >= 65536 elements in the basis matrix
     let gh = crate::prng::mix(seed, "giant", index);
-    let giant = if gh % 400 == 0 { 1 + ((gh >> 16) % 3) as u8 } else { 0 };
+    // checks with few runs per batch (C09 enumerates every call position of each scenario,
+    // C17 every closure) draw the class more often so that a quick batch still contains some
+    let giant_one_in = match property {
+        "C09" => 150,
+        "C17" => 200,
+        _ => 400,
+    };
+    let giant = if gh % giant_one_in == 0 { 1 + ((gh >> 16) % 3) as u8 } else { 0 };
     let mut model = if giant == 1 {
         let mut m = gen_model(rng, kind, 40, 80);
         for _ in 0..400 {
